@@ -31,7 +31,7 @@ PLAN = {
     "thorough": {"shards": 16, "shard_timeout": 3600, "case_timeout": 60, "cases": 1000000, "max_case_timeouts": 10},
 }
 THRESHOLDS = {
-    "quick": {"decider_random_str": 100, "contract_evaluations": 100000, "impl:native": 5000, "impl:ge": 5000, "impl:stack": 5000, "impl:sge": 5000, "impl:dsge": 1000, "exhaustive_spaces": 100, "decider_random_int": 20000, "wide_ranges": 3000, "zero_weight_offers": 2000, "same_seed_streams": 20, "decider_widths_enumerated": 3000, "weighted_enumerations_with_reused_list": 10, "pops_from_lists_with_equal_but_distinct_elements": 500, "gene_domain_weighted_draws": 20000, "gene_domain:dsge:fresh": 2, "gene_domain:stack:mutated": 2},
+    "quick": {"decider_random_str": 100, "weighted_choices_after_the_list_was_changed_in_place": 300, "contract_evaluations": 100000, "impl:native": 5000, "impl:ge": 5000, "impl:stack": 5000, "impl:sge": 5000, "impl:dsge": 1000, "exhaustive_spaces": 100, "decider_random_int": 20000, "wide_ranges": 3000, "zero_weight_offers": 2000, "same_seed_streams": 20, "decider_widths_enumerated": 3000, "weighted_enumerations_with_reused_list": 10, "pops_from_lists_with_equal_but_distinct_elements": 500, "gene_domain_weighted_draws": 20000, "gene_domain:dsge:fresh": 2, "gene_domain:stack:mutated": 2},
     "thorough": {"contract_evaluations": 2000000, "exhaustive_spaces": 2000, "decider_random_int": 400000},
 }
 
@@ -309,9 +309,19 @@ def script(src, rng, n=60):
                 src.random_float(a, b)
             elif p < 0.55:
                 src.choice([object() for _ in range(rng.choice([1, 2, 3, 7]))])
-            elif p < 0.72:
+            elif p < 0.66:
                 w = rng.choice(WEIGHTS)
                 src.choice_weighted([f"o{i}" for i in range(len(w))], list(w))
+            elif p < 0.72:
+                # weights that a caller ADAPTS between two choices, in the same list object (adaptive operator weights,
+                # `weights[i] = 0` to retire an option): each call is answered from the weights as they are at that call
+                w = [1.0, 1.0, 0.0]
+                opts = ["o0", "o1", "o2"]
+                src.choice_weighted(opts, w)
+                w[0], w[2] = 0.0, 2.0
+                for _ in range(3):
+                    src.choice_weighted(opts, w)
+                _r().count("weighted_choices_after_the_list_was_changed_in_place", 3)
             elif p < 0.82:
                 src.shuffle([rng.randrange(5) for _ in range(rng.choice([0, 1, 2, 5, 9]))])
             elif p < 0.86:
